@@ -7,6 +7,7 @@ import (
 	"io/fs"
 	"os"
 	"strconv"
+	"strings"
 	"syscall"
 
 	"github.com/jxsl13/backupfs"
@@ -125,6 +126,8 @@ func t1Internal(f []string) (string, bool) {
 		return boolStr(b), true
 	case "toabssymlink":
 		return enc(backupfs.VerifToAbsSymlink(dec(f[1]), dec(f[2]))), true
+	case "finfo":
+		return finfoEval(f), true
 	case "hlist":
 		return hlistEval(f), true
 	case "layer":
@@ -133,4 +136,53 @@ func t1Internal(f []string) (string, bool) {
 		return boolStr(backupfs.VerifIsAbs(dec(f[1]))), true
 	}
 	return "", false
+}
+
+// finfo <name> <mode> <modtimeNs> <size> <uid> <gid>: build an fInfo, push it
+// through toFInfo and a JSON round trip inside a BackupFS, compare accessors.
+func finfoEval(f []string) string {
+	atoi := func(s string) int64 { v, _ := strconv.ParseInt(s, 10, 64); return v }
+	name := dec(f[1])
+	orig := backupfs.VerifNewFInfo(name, uint32(atoi(f[2])), atoi(f[3]), atoi(f[4]), int(atoi(f[5])), int(atoi(f[6])))
+	b := backupfs.NewBackupFS(&recFS{}, &recFS{})
+	b.SetMap(map[string]fs.FileInfo{name: orig, "/nil": nil})
+	data, err := b.MarshalJSON()
+	if err != nil {
+		return "marshal-error"
+	}
+	b2 := backupfs.NewBackupFS(&recFS{}, &recFS{})
+	if err := b2.UnmarshalJSON(data); err != nil {
+		return "unmarshal-error"
+	}
+	m := b2.Map()
+	got, ok := m[name]
+	if !ok || got == nil {
+		return "entry-lost"
+	}
+	if v, ok := m["/nil"]; !ok || v != nil {
+		return "nil-entry-lost"
+	}
+	var diffs []string
+	if got.Mode() != orig.Mode() {
+		diffs = append(diffs, "mode")
+	}
+	if !got.ModTime().Equal(orig.ModTime()) {
+		diffs = append(diffs, "modtime")
+	}
+	if got.Size() != orig.Size() {
+		diffs = append(diffs, "size")
+	}
+	if got.IsDir() != orig.IsDir() {
+		diffs = append(diffs, "isdir")
+	}
+	if got.Name() != orig.Name() {
+		diffs = append(diffs, "name")
+	}
+	if backupfs.VerifToUID(got) != backupfs.VerifToUID(orig) || backupfs.VerifToGID(got) != backupfs.VerifToGID(orig) {
+		diffs = append(diffs, "owner")
+	}
+	if len(diffs) == 0 {
+		return "same"
+	}
+	return "diff:" + strings.Join(diffs, ",")
 }
